@@ -59,8 +59,9 @@ def param_key(view, ai, key):
 
 
 class Totality:
-    def __init__(self, prog, table=None, implicit_scope=None, extra_entry_cfg=None):
+    def __init__(self, prog, table=None, implicit_scope=None, cfg_set=None):
         self.prog = prog
+        self.cfg_set = list(cfg_set or [])
         self.table = table or {}
         self.memo = {}
         self.ai_memo = {}
@@ -69,6 +70,7 @@ class Totality:
         self.implicit_scope = implicit_scope or (lambda body: not body["file"].startswith("src/algorithms"))
         self.stats = {"functions": 0, "sites": 0, "discharged": 0, "table": 0}
         self.table_used = set()
+        self.row_failures = []
         self.discharge_log = []
 
     # ------------------------------------------------------------------
@@ -131,6 +133,87 @@ class Totality:
                         guards.append((fact[0], pa, pb, truths.pop()))
                     break
         return guards
+
+    def _site_guard(self, view, a, st, site):
+        """The panic condition of the site itself as a parameter comparison, when it has that form:
+        bounds check idx >= len, slice[..end] with end > len, split_at(mid) with mid > len."""
+        t = site.term
+
+        def pk(op):
+            k = a.operand_key(st, op)
+            return param_key(view, a, k) if k is not None else None
+
+        def plen(op):
+            if op.get("o") not in ("copy", "move") or op["p"]:
+                return None
+            lk = a.len_key(op["l"], st)
+            if lk is None:
+                return None
+            if lk[0] == "const":
+                return ("c", lk[1])
+            return param_key(view, a, lk)
+        if site.kind == "assert:BoundsCheck":
+            ki, kl = pk(t["index"]), pk(t["len"])
+            if ki is not None and kl is not None:
+                return ("Ge", ki, kl, True)
+            return None
+        if site.kind == "foreign":
+            name, args = site.what, t["args"]
+            if "index::Index" in name and len(args) == 2 and "for str>" not in name:
+                kl = plen(args[0])
+                ra = self._range_arg(view, a, st, args[1])
+                if kl is None or ra is None:
+                    return None
+                kind, s_op, e_op = ra
+                if kind == "to":
+                    ke = pk(e_op)
+                    return ("Gt", ke, kl, True) if ke is not None else None
+                if kind == "from":
+                    ks = pk(s_op)
+                    return ("Gt", ks, kl, True) if ks is not None else None
+                return None
+            if (name.endswith("::split_at") or name.endswith("::split_at_mut")) and "str" not in name and len(args) == 2:
+                kl, km = plen(args[0]), pk(args[1])
+                if kl is not None and km is not None:
+                    return ("Gt", km, kl, True)
+        return None
+
+    def dominated_by_test(self, view, site_block, callee, truth):
+        """site_block is dominated by the `truth` edge of a switch whose discriminant is the result
+        of a call to `callee` (side condition of a reviewed table row)."""
+        for b in view.dom.get(site_block, ()):
+            t = view.blocks[b]["term"]
+            if t["t"] != "switch":
+                continue
+            d = t["discr"]
+            if not (d.get("o") in ("copy", "move") and not d["p"]):
+                continue
+            ch = view.chase(d)
+            neg = False
+            if ch[0] == "rv" and ch[1]["r"] == "un" and ch[1]["op"] == "Not":
+                ch = view.chase(ch[1]["a"])
+                neg = True
+            if ch[0] != "call":
+                continue
+            name = ir.callee_name(ch[1]["fn"])
+            if name != callee and not (name or "").endswith(callee):
+                continue
+            for s in view.succ.get(b, []):
+                vals = [v for v, bb in t["targets"] if bb == s]
+                truths = {bool(v) for v in vals}
+                if t["otherwise"] == s:
+                    truths |= ({True, False} - {bool(v) for v, _ in t["targets"]})
+                if len(truths) == 1 and (truths.pop() != neg) == truth and view.edge_dominates(b, s, site_block):
+                    return True
+        return False
+
+    def _row_ok(self, view, block, row):
+        """Machine-checked side conditions of a table row."""
+        for req in row.get("requires", []):
+            if "test" in req:
+                if not self.dominated_by_test(view, block, req["test"], req["truth"]):
+                    return False
+        return True
 
     def _table_row(self, fn_key, kind, what):
         rows = self.table.get(fn_key)
@@ -400,6 +483,9 @@ class Totality:
             what = site.what if site.kind != "diverge" else (site.macro or site.what)
             row = self._table_row(key, site.kind, what)
             preds = []
+            if row is not None and not self._row_ok(view, site.block, row):
+                self.row_failures.append((key, row.get("kind"), row.get("what"), site.where))
+                row = None
             if row is not None:
                 self.table_used.add((key, row.get("kind"), row.get("what")))
                 if row.get("pred"):
@@ -410,6 +496,9 @@ class Totality:
                     self.stats["table"] += 1
                     continue
             guards = self._guards_for(view, a, site.block)
+            sg = self._site_guard(view, a, st, site)
+            if sg is not None:
+                guards.append(sg)
             out.append(Residual(key, site.kind, what, site.where, site.macro, [key], guards, preds))
 
         # calls to local functions (and closures / fn items handed to foreign combinators)
@@ -454,7 +543,18 @@ class Totality:
                         self.discharge_log.append((key, cfg, "local-call", name, "D-lit %d < 2^%d" % (c, bits)))
                         continue
             for tk in targets + indirect:
-                sub = self.residuals(tk, self.callee_cfg(view, f, tk, cfg), depth + 1)
+                ccfg = self.callee_cfg(view, f, tk, cfg)
+                if ccfg == "any":
+                    # a Uint of another (unknown) width: union over the evaluated configurations
+                    sub, seen_sub = [], set()
+                    for c2 in self.cfg_set:
+                        for rs in self.residuals(tk, c2, depth + 1):
+                            k2 = (rs.site_key(), tuple(rs.chain))
+                            if k2 not in seen_sub:
+                                seen_sub.add(k2)
+                                sub.append(rs)
+                else:
+                    sub = self.residuals(tk, ccfg, depth + 1)
                 for rs in sub:
                     self.stats["sites"] += 1
                     if tk in targets:
@@ -466,6 +566,9 @@ class Totality:
                         self.discharge_log.append((key, cfg, "call->" + rs.site_key(), view.where(bi), verdict))
                         continue
                     row = self._table_row(key, "call", rs.site_key())
+                    if row is not None and not self._row_ok(view, bi, row):
+                        self.row_failures.append((key, "call", row.get("what"), view.where(bi)))
+                        row = None
                     if row is not None and not row.get("pred"):
                         self.table_used.add((key, row.get("kind"), row.get("what")))
                         self.stats["table"] += 1
@@ -507,7 +610,7 @@ class Totality:
         else:
             return cfg   # closure / fn item defined in the caller: inherits its generics
         if len(args) != len(names):
-            return cfg if (cb.get("root") or "") else None
+            return "any"
         vals = []
         for want in ("BITS", "LIMBS"):
             a = args[names.index(want)]
@@ -516,12 +619,12 @@ class Totality:
             elif a.get("c") == "param":
                 v = view.env.get(a["n"])
                 if v is None:
-                    return None
+                    return "any"
                 vals.append(v)
             else:
-                return None
+                return "any"
         c = (vals[0], vals[1])
-        return c if c in self.prog.configs else None
+        return c if c in self.prog.configs else "any"
 
     _dyn = None
 
